@@ -38,7 +38,7 @@ def _alph(tier):
 
 
 SPECS = ["gapped", "clustered", "degenerate", "single"]
-FAMILIES = ["herm", "decay0", "decay1", "decayfull", "lindblad1", "lindblad2"]
+FAMILIES = ["herm", "decay0", "decay1", "decayfull", "lindblad1", "lindblad2", "sectors"]
 
 
 def bounds(tier, seed):
@@ -50,6 +50,11 @@ def bounds(tier, seed):
 def cases(tier, seed):
     a = _alph(tier)
     for fam in FAMILIES:
+        if fam == "sectors":
+            # two atoms, one of them far detuned (what an SLM mask does): a low-energy sector weakly coupled to a high-energy one
+            for E, eps, dt, tol in itertools.product((600.0, 60.0), (0.45, 0.05), (0.003, 0.01), a["tol"]):
+                yield {"family": fam, "E": E, "eps": eps, "dt": dt, "tol": tol, "mk": 100, "scale": 1.0, "seed": seed}
+            continue
         if fam.startswith("lindblad"):
             for scale, tol, mk in itertools.product(a["scale"], a["tol"], a["mk"]):
                 for noise in ("relax", "dephase", "both"):
@@ -87,6 +92,10 @@ def _spectrum(d, spec):
 
 def _operator(case):
     fam, seed = case["family"], case["seed"]
+    if fam == "sectors":
+        H = dense_hamiltonian([case["eps"], case["eps"]], [-case["E"] - 1.0, -1.0], [0.0, 0.0], np.zeros((2, 2)))
+        A = -1j * case["dt"] * H
+        return A, np.eye(4, dtype=complex), True
     if fam.startswith("lindblad"):
         n = int(fam[-1])
         r = np.random.RandomState(17 + seed)
@@ -156,7 +165,10 @@ def run_case(case):
     n_run = 0
     outcomes = []
     worst = 0.0
-    for vname, v in _vectors(basis, d, case["seed"]):
+    vectors = _vectors(basis, d, case["seed"])
+    if case["family"] == "sectors":
+        vectors = [("ground", np.array([1, 0, 0, 0], dtype=complex)), ("generic", vectors[-2][1])]
+    for vname, v in vectors:
         flags = [True, False] if hermitian_ok else [False]
         for herm in flags:
             n_run += 1
@@ -192,7 +204,7 @@ def run_case(case):
                     if not err <= allowed:
                         return result(
                             False,
-                            sig=f"inaccurate-converged|{case['family']}|herm={herm}",
+                            sig=("inaccurate-converged|sectors|error-estimate-uses-norm-of-previous-vector" if case["family"] == "sectors" and res.iteration_count <= 2 else f"inaccurate-converged|{case['family']}|herm={herm}"),
                             msg=f"converged (happy={res.happy_breakdown}, it={res.iteration_count}) but |exp(A)v - result| = {err:.3e} > {allowed:.3e}; vector {vname}, {case}",
                             outcome="viol",
                         )
